@@ -1624,3 +1624,48 @@ func (x *c02ctx) r2x21() {
 		r.Errorf("R02.21: only %d direct-store shortcuts found in the binaryExpr/unaryExpr cases of cfg (one each expected)", n)
 	}
 }
+
+func init() {
+	ruleText["R02.22"] = "division by a zero constant is an error only where Go makes it one: in typecheck.binaryExpr the error reported under the zero test of the divisor in the case of the division operator is further conditioned on the dividend - it is a constant (its rval is valid) or of integer type (isInt) - as in go/types ((x.mode == constant || allInteger(x.typ)) && y is a zero constant): a floating-point or complex variable divided by 0 is +Inf, not a compile error. The remainder operator is defined on integers only and needs no such condition"
+}
+
+// r2x22: D143. f := 1.0; f / 0 was rejected.
+func (x *c02ctx) r2x22() {
+	ic, r := x.ic, x.r
+	info := ic.Info
+	be := ic.fn(r, "typecheck.binaryExpr")
+	if be == nil {
+		return
+	}
+	n := 0
+	ast.Inspect(be.Decl.Body, func(q ast.Node) bool {
+		cc, ok := q.(*ast.CaseClause)
+		if !ok {
+			return true
+		}
+		quo := false
+		for _, e := range cc.List {
+			if id := identOf(e); id != nil && id.Name == "aQuo" {
+				quo = true
+			}
+		}
+		if !quo {
+			return true
+		}
+		for _, st := range cc.Body {
+			ifs, ok := st.(*ast.IfStmt)
+			if !ok || len(callsIn(info, ifs.Cond, false, "interp.zeroConst")) == 0 {
+				continue
+			}
+			n++
+			intTest := len(callsIn(info, ifs.Cond, false, "interp.isInt")) > 0
+			constTest := len(callsIn(info, ifs.Cond, false, "reflect.Value.IsValid")) > 0
+			r.Check(intTest && constTest, "R02.22", fmt.Sprintf("typecheck.binaryExpr/case:aQuo/zero-divisor#%d/only-for-constant-or-integer-dividends", n), ic.pos(ifs.Pos()), "the error also requires a constant or integer dividend",
+				"typecheck.binaryExpr reports a division by zero under "+types.ExprString(ifs.Cond)+", whatever the dividend: `f := 1.0; f / 0` and `c / 0` for a complex variable are rejected, where compiled Go accepts them and yields +Inf (go/types reports the error only for a constant or integer dividend)")
+		}
+		return true
+	})
+	if n == 0 {
+		r.Errorf("R02.22: no zero-divisor test found in the aQuo case of typecheck.binaryExpr")
+	}
+}
